@@ -115,6 +115,13 @@ func newResult(t reflect.Type, opts resultOptions) (result, error) {
 				return nil, newErrInvalidInput(fmt.Sprintf(
 					"flatten can be applied to slices only: %v is not a slice", t), nil)
 			}
+			if rg.Type != t {
+				// dig.As replaced the slice type by an interface type that
+				// the slice type implements; its elements cannot be
+				// provided as that interface.
+				return nil, newErrInvalidInput(fmt.Sprintf(
+					"cannot use dig.As with flatten: %v would be provided as %v", t, rg.Type), nil)
+			}
 			rg.Type = rg.Type.Elem()
 		}
 		return rg, nil
